@@ -941,3 +941,11 @@ Lemma patched_witnesses :
   sizes (blob 4047) (split_bytes 4096 (blob 4047) [] [] [(2, [(nh16, nlri_of 17)], [])]) = ([], Done) /\
   sizes (blob 3973) (split_bytes 4096 (blob 3973) [] [] [(2, [(nh16, nlri_of 70)], [nlri_of 2])]) = ([4090; 4004], Done).
 Proof. vm_compute. repeat split; reflexivity. Qed.
+
+Lemma exists_oversize : forall attr r z M,
+  In z (fst (sizes attr r)) -> M < z ->
+  exists m, In m (fst r) /\ M < wire_size zlen zlen (zlen attr) m.
+Proof.
+  intros attr r z M H Hz. unfold sizes in H. cbn [fst] in H. apply in_map_iff in H.
+  destruct H as (m & <- & Hin). exists m. split; assumption.
+Qed.
